@@ -16,9 +16,11 @@ import (
 	"encoding/json"
 	"flag"
 	"fmt"
+	"image"
+	"image/color"
 	_ "image/gif"
 	_ "image/jpeg"
-	_ "image/png"
+	"image/png"
 	"os"
 	"path/filepath"
 	"runtime"
@@ -221,6 +223,31 @@ type scenario struct {
 	progs  [][]op
 	prep   func(f *xl.File) error
 	reopen bool
+	// lockstep: all goroutines start their i-th operation together (maximal overlap of one
+	// operation kind; every program has the same length)
+	lockstep bool
+}
+
+// uniquePNG writes a small PNG nobody else uses into the private temp dir and returns its path.
+func uniquePNG(seed uint64, t, i int) string {
+	img := image.NewRGBA(image.Rect(0, 0, 6, 6))
+	for x := 0; x < 6; x++ {
+		for y := 0; y < 6; y++ {
+			img.Set(x, y, color.RGBA{R: uint8(10 + t), G: uint8(i), B: uint8(seed), A: 255})
+		}
+	}
+	var buf bytes.Buffer
+	_ = png.Encode(&buf, img)
+	p := filepath.Join(os.TempDir(), fmt.Sprintf("c15-%d-%d-%d.png", seed, t, i))
+	_ = os.WriteFile(p, buf.Bytes(), 0o644)
+	return p
+}
+
+func imgPath(name string) string {
+	if filepath.IsAbs(name) {
+		return name
+	}
+	return filepath.Join(imgDir, name)
 }
 
 func pickSheet(r *rng, sheets []string) string { return sheets[r.intn(len(sheets))] }
@@ -256,6 +283,13 @@ func buildScenario(kind string, r *rng, tier string) *scenario {
 	if kind == "w-row" {
 		sc.g, nops = 4, 1
 		sc.sheets = []string{"Sheet1"}
+	}
+	if kind == "w-media" {
+		sc.g, nops, sc.procs, sc.lockstep = 8+r.intn(5), 10, 8, true
+		sc.sheets = []string{"Sheet1"}
+		for t := 1; t < sc.g; t++ {
+			sc.sheets = append(sc.sheets, fmt.Sprintf("Pic%d", t+1))
+		}
 	}
 	if kind == "sheetrow" {
 		if sc.g < 6 {
@@ -320,6 +354,8 @@ func buildScenario(kind string, r *rng, tier string) *scenario {
 				kindSel = pickW(w, "colstyle", 40, "setval", 60)
 			case "w-row": // witness: one long SetSheetRow per goroutine on the same row, started together
 				kindSel = "sheetrow"
+			case "w-media": // witness: every goroutine adds images nobody else has to its own, prepared sheet
+				kindSel = "addpic"
 			case "w-ctypes": // witness: first AddPicture calls on a reopened workbook (lazy content-types decode)
 				kindSel = "addpic"
 			case "w-getpic": // witness: GetPictures while the first picture of the sheet is added
@@ -474,6 +510,11 @@ func buildScenario(kind string, r *rng, tier string) *scenario {
 				pk := t*6 + r.intn(6)
 				c := cellName(pk)
 				img := imgs[(t+i)%len(imgs)]
+				if kind == "w-media" {
+					sheet = sc.sheets[t%len(sc.sheets)]
+					c = cellName(6 + i) // one cell per round
+					img = uniquePNG(r.s, t, i)
+				}
 				prog = append(prog, op{Fn: "AddPicture", Kind: "addpic", Sheet: sheet, Cell: c, Img: img, Key: "p|" + sheet + "|" + c})
 			case "getpic":
 				prog = append(prog, op{Fn: "GetPictures", Kind: "getpic", Sheet: sheet, Cell: cellName(t*6 + r.intn(6))})
@@ -509,6 +550,16 @@ func buildScenario(kind string, r *rng, tier string) *scenario {
 					if err := f.SetCellFormula(sh, cellName(k), fmt.Sprintf("=SUM(%d,1)", k)); err != nil {
 						return err
 					}
+				}
+			}
+			return nil
+		}
+	case "w-media":
+		sc.prep = func(f *xl.File) error {
+			// every sheet gets its drawing part up front: the concurrent phase only competes for media names
+			for _, sh := range sc.sheets {
+				if err := f.AddPicture(sh, "A1", imgPath("excel.png"), nil); err != nil {
+					return err
 				}
 			}
 			return nil
@@ -552,6 +603,32 @@ func pickW(w int, kv ...interface{}) string {
 		}
 	}
 	return kv[0].(string)
+}
+
+// round barrier for lockstep scenarios
+type roundBarrier struct {
+	mu   sync.Mutex
+	n    int
+	cnt  map[int]int
+	gate map[int]chan struct{}
+}
+
+func newBarrier(n int) *roundBarrier {
+	return &roundBarrier{n: n, cnt: map[int]int{}, gate: map[int]chan struct{}{}}
+}
+
+func (b *roundBarrier) wait(round int) {
+	b.mu.Lock()
+	if b.gate[round] == nil {
+		b.gate[round] = make(chan struct{})
+	}
+	g := b.gate[round]
+	b.cnt[round]++
+	if b.cnt[round] == b.n {
+		close(g)
+	}
+	b.mu.Unlock()
+	<-g
 }
 
 // ---- execution ----
@@ -650,7 +727,7 @@ func runOp(f *xl.File, o *op, styleIDs []int) (res opResult) {
 		row := o.Row
 		err = f.SetSheetRow(o.Sheet, o.Cell, &row)
 	case "addpic":
-		err = f.AddPicture(o.Sheet, o.Cell, filepath.Join(imgDir, o.Img), nil)
+		err = f.AddPicture(o.Sheet, o.Cell, imgPath(o.Img), nil)
 	case "getpic":
 		_, err = f.GetPictures(o.Sheet, o.Cell)
 	}
@@ -730,6 +807,7 @@ func runScenario(idx int, kind string, seed uint64, tier string) *result {
 	var progress int64
 	var wg sync.WaitGroup
 	start := make(chan struct{})
+	barrier := newBarrier(sc.g)
 	for t := 0; t < sc.g; t++ {
 		wg.Add(1)
 		results[t] = make([]opResult, len(sc.progs[t]))
@@ -738,6 +816,9 @@ func runScenario(idx int, kind string, seed uint64, tier string) *result {
 			pr := newRng(seed*1000003 + uint64(t))
 			<-start
 			for i := range sc.progs[t] {
+				if sc.lockstep {
+					barrier.wait(i)
+				}
 				switch pr.intn(6) {
 				case 0:
 					runtime.Gosched()
@@ -1068,7 +1149,7 @@ wait:
 	sort.Strings(pkeys)
 	for _, k := range pkeys {
 		p := strings.SplitN(k, "|", 3)
-		want, _ := os.ReadFile(filepath.Join(imgDir, picExpect[k]))
+		want, _ := os.ReadFile(imgPath(picExpect[k]))
 		pics, err := f.GetPictures(p[1], p[2])
 		ok := false
 		for _, pc := range pics {
@@ -1196,7 +1277,7 @@ var kinds = []string{"cells", "styles", "cols", "dviter", "pictures", "reopen", 
 
 // witness scenarios run first on every run: each hammers one pair of functions for which the
 // model predicts (or predicted, before a fix) unsynchronised access
-var witnessKinds = []string{"w-time", "w-fmt", "w-setstyle", "w-colstyle", "formulas", "reopen", "w-getpic", "w-row", "w-ctypes"}
+var witnessKinds = []string{"w-time", "w-fmt", "w-setstyle", "w-colstyle", "formulas", "reopen", "w-getpic", "w-row", "w-ctypes", "w-media"}
 
 func main() {
 	seed := flag.Uint64("seed", 1, "")
@@ -1208,7 +1289,7 @@ func main() {
 	flag.Parse()
 	total := *n
 	if total == 0 {
-		total = 50
+		total = 52
 		if *tier == "thorough" {
 			total = 400
 		}
